@@ -1086,6 +1086,33 @@ func main() {
 			}
 		}
 		findItems(ds, ps, "writes")
+	case "rejoin-stale":
+		// a removed node joins again - same id, same address - through a member that applies late and has not yet
+		// applied the removal: whatever that member believes locally, the join has to go through the log, or it is
+		// acknowledged and then undone by the removal the member applies a moment later
+		b.kill()
+		b.start("VERIF_APPLY_DELAY_MS=2500")
+		observe(ps, "restart")
+		ctx, cancel := context.WithTimeout(context.Background(), 5*time.Second)
+		_, err := pb.NewNodesManagerClient(a.conn).RemoveNode(ctx, &pb.Node{Id: 3})
+		cancel()
+		okv, es := 1, ""
+		if err != nil {
+			okv, es = 0, err.Error()
+		}
+		emit(event{"ev": "left", "node": 3, "ok": okv, "err": es})
+		c.kill()
+		c.join = "127.0.0.1:" + b.port
+		ok := c.start()
+		okv = 0
+		if ok {
+			okv = 1
+		}
+		emit(event{"ev": "joined", "node": 3, "addr": ":" + c.port, "ok": okv})
+		time.Sleep(6 * time.Second) // the slow member catches up
+		observe(ps, "join")
+		create(a, 2, 2)
+		observe(ps, "create")
 	case "leave":
 		ctx, cancel := context.WithTimeout(context.Background(), 5*time.Second)
 		_, err := pb.NewNodesManagerClient(a.conn).RemoveNode(ctx, &pb.Node{Id: 3})
